@@ -210,9 +210,6 @@ def gen_index_case(rng, full):
 
 
 def index_what(shp, idx, numpy_res, impl_res):
-    neg = any(isinstance(a, list) and (a[2] or 1) < 0 for a in idx)
-    if neg:
-        return "indexed_shape differs from NumPy indexing (negative-step slice)"
     if numpy_res is not None and impl_res is None:
         return "indexed_shape raises on an index expression NumPy accepts (newaxis / Ellipsis bookkeeping)"
     if numpy_res is None:
@@ -423,6 +420,8 @@ def realize(t):
         s = SCALS[t[1]][0]
         a = realize(t[3])
         return s * a if t[2] == "l" else a * s
+    if k == "div":
+        return realize(t[2]) / SCALS[t[1]][0]
     if k == "add":
         return realize(t[1]) + realize(t[2])
     if k == "sub":
@@ -493,6 +492,8 @@ def coq_ox(t):
         return f"(XGram {coq_ox(t[1])})"
     if k == "scal":
         return f"(XScal {SCALS[t[1]][1]} {coq_ox(t[3])})"
+    if k == "div":   # A / s: same metadata rules as s * A (Expr.v op_scal)
+        return f"(XScal {SCALS[t[1]][1]} {coq_ox(t[2])})"
     if k in ("add", "sub"):
         return f"(XAdd {coq_ox(t[1])} {coq_ox(t[2])})"
     if k == "comp":
@@ -595,6 +596,8 @@ def decl_shapes(t):
         return i, i
     if k == "scal":
         return decl_shapes(t[3])
+    if k == "div":
+        return decl_shapes(t[2])
     if k in ("add", "sub"):
         return decl_shapes(t[1])
     if k == "comp":
@@ -619,12 +622,14 @@ def gen_tree(rng, dt, depth):
         s = rng.choice(["r", "c", "c", "np64", "npc64", "np32"])
         side = "r" if s.startswith("np") else rng.choice(["l", "r"])
         return ["scal", s, side, gen_tree(rng, dt, depth - 1)]
+    if r < 0.66:
+        return ["div", rng.choice(["r", "c", "c", "np64", "npc64"]), gen_tree(rng, dt, depth - 1)]
     a = gen_tree(rng, dt, depth - 1)
     try:
         ia, oa = decl_shapes(a)
     except Exception:
         return a
-    if r < 0.72:
+    if r < 0.76:
         # a +/- b with b of the same shape: a copy, a scaled copy, or (square) a fresh leaf
         q = rng.random()
         if q < 0.4:
@@ -635,8 +640,12 @@ def gen_tree(rng, dt, depth):
             b = gen_leaf(rng, dt, shape=ia, square=True)
         else:
             b = a
+        if b[0] == "Mat" and a[0] != "Mat":
+            # MatrixOperator defines __radd__/__rsub__ and is a subclass of the left operand's class, so Python
+            # dispatches L +/- M to M's reflected method first; that dispatch is not modelled in Expr.v
+            b = a
         return [rng.choice(["add", "sub"]), a, b]
-    if r < 0.86:
+    if r < 0.88:
         # a(b): b maps into a's input shape.  Crop's forward map is a jax.linear_transpose (exact input
         # dtype required); the XLeaf model of Crop is faithful only on its declared dtype, so Crop is
         # not used as the *outer* operator of a generated composition (it is in the class sweep)
@@ -784,7 +793,7 @@ def oracle_O1(ctx, unit, t, ob, extra=None):
 def unit_of(t, ob):
     """call site a finding is attributed to: class of the root's operand + root form"""
     k = t[0]
-    if k in ("T", "H", "conj", "gram", "scal", "add", "sub", "comp", "vstack", "dstack", "drep", "freeze"):
+    if k in ("T", "H", "conj", "gram", "scal", "div", "add", "sub", "comp", "vstack", "dstack", "drep", "freeze"):
         return "derived:" + k
     return "leaf:" + k
 
@@ -819,6 +828,16 @@ def run_exprs(ctx):
         ["drep", ["Sum", [3, 4], 0, "float32"], 2, 0, 1],
         ["scal", "c", "l", ["L", True, "scale2", [3], False, "float32"]],
         ["H", ["scal", "c", "l", ["L", True, "scale2", [3], False, "float32"]]],
+        # division by real / dtype-promoting scalars of generic (non-overriding) and class-specific operators
+        ["div", "r", ["L", True, "scale2", [3], False, "float32"]], ["div", "c", ["L", True, "scale2", [3], False, "float32"]],
+        ["div", "npc64", ["Sum", [3, 4], 1, "float32"]], ["div", "np64", ["Pad", [3, 4], 1, "float32"]],
+        ["div", "c", ["L", True, "scale2", [3], False, "complex64"]], ["div", "r", ["L", True, "cplx", [3], False, "complex128"]],
+        ["div", "c", ["L", False, "scale2", [3], False, "float64"]], ["div", "npc64", ["L", False, "abs", [3], False, "complex64"]],
+        ["conj", ["div", "c", ["L", True, "scale2", [3], False, "float32"]]],
+        ["comp", ["Id", [3], "float32"], ["div", "r", ["Transpose", [3], "float32"]]],
+        ["div", "r", ["Mat", 2, 3, 0, "float32"]], ["div", "c", ["Diag", [3], "float32", None, None]],
+        ["div", "r", ["SId", "r", [3], "complex64"]], ["div", "c", ["Id", [3], "float32"]],
+        ["scal", "c", "r", ["L", False, "scale2", [3], False, "float32"]], ["scal", "np64", "r", ["L", False, "scale2", [3], False, "float32"]],
     ]
     trees = fixed + trees
     # every subexpression is observed on its own, so that a failure is attributed to the
@@ -871,6 +890,7 @@ def run_exprs(ctx):
         ob = obs[key]
         inp = root_info(t, ob)
         inp["operands"] = [operand_meta(obs[json.dumps(s_)]) for s_ in subtrees(t)]
+        inp["declared"] = None if ob["ctor"] is not None or "meta_error" in ob else [ob["ish"], ob["osh"], ob["idt"], ob["odt"]]
         for w, exp, got, orc in failing[key]:
             ctx.violation(unit_of(t, ob), w, inp, expected=exp, observed=got, oracle=orc)
     return trees
@@ -890,7 +910,7 @@ def all_subtrees(t):
 
 
 FORMS_AND_LEAVES = {"L", "Diag", "SId", "Id", "Mat", "Sum", "Transpose", "Pad", "Crop", "FD", "T", "H", "conj", "gram",
-                    "scal", "add", "sub", "comp", "vstack", "dstack", "drep", "freeze"}
+                    "scal", "div", "add", "sub", "comp", "vstack", "dstack", "drep", "freeze"}
 
 
 def operand_meta(ob):
@@ -919,7 +939,10 @@ def expr_failures(t, ob, code, obs):
         else:
             out.append(("declared metadata of the derived operator differ from the operator calculus", "spec e (ExprSpec.v)",
                         [ob["ish"], ob["osh"], ob["idt"], ob["odt"]], "declared e = spec e (C12_declared_eq_spec)"))
-    if code & 16 and t[0] in ("vstack", "dstack") and ob["ctor"] is None:
+    subs = [obs.get(json.dumps(s_)) for s_ in subtrees(t)]
+    mixed = (len(subs) == 2 and all(s_ and s_["ctor"] is None and "meta_error" not in s_ for s_ in subs)
+             and subs[0]["odt"] != subs[1]["odt"])
+    if code & 16 and t[0] in ("vstack", "dstack") and ob["ctor"] is None and mixed:
         out.append(("stack of operators with different output dtypes is accepted", "ValueError (check_if_stackable)",
                     [ob["osh"], ob["odt"]], "spec e = None"))
     return out
@@ -994,7 +1017,7 @@ def class_table():
     return T
 
 
-UNARY = ["id", "T", "H", "conj", "gram", "2*", "2j*", "*np64", "neg", "A+A", "A-A", "AH(A)", "jit"]
+UNARY = ["id", "T", "H", "conj", "gram", "2*", "2j*", "*np64", "/2", "/2j", "/npc64", "neg", "A+A", "A-A", "AH(A)", "jit"]
 
 
 def derive(A, form):
@@ -1014,6 +1037,12 @@ def derive(A, form):
         return 2j * A
     if form == "*np64":
         return A * np.float64(2.0)
+    if form == "/2":
+        return A / 2.0
+    if form == "/2j":
+        return A / (1 + 2j)
+    if form == "/npc64":
+        return A / np.complex64(2j)
     if form == "neg":
         return -A
     if form == "A+A":
@@ -1034,7 +1063,7 @@ def sweep_one(name, dt, form):
     T = class_table()
     A0 = T[name](np.dtype(dt).type)
     lin0 = isinstance(A0, LinearOperator)
-    if form not in ("id", "2*", "2j*", "*np64", "neg", "A+A", "A-A") and not lin0:
+    if form not in ("id", "2*", "2j*", "*np64", "/2", "/2j", "/npc64", "neg", "A+A", "A-A") and not lin0:
         return None
     rec = {"base": [canon_shape(A0.input_shape), canon_shape(A0.output_shape), dtn(A0.input_dtype), dtn(A0.output_dtype)]}
     try:
@@ -1066,8 +1095,10 @@ def sweep_one(name, dt, form):
 def sweep_expected(base, form):
     """metadata the calculus promises for a unary derived form of an operator with metadata base"""
     i, o, di, do = base
-    if form in ("id", "jit", "neg", "2*", "A+A", "A-A"):
+    if form in ("id", "jit", "neg", "2*", "/2", "A+A", "A-A"):
         return [i, o, di, do]
+    if form in ("/2j", "/npc64"):
+        return [i, o, di, dt_join(do, "complex64")]
     if form in ("T", "H"):
         return [o, i, do, di]
     if form == "conj":
@@ -1088,7 +1119,18 @@ def run_sweep(ctx):
         # every class with form "id" at two dtypes + a sample of the derived forms
         base = [(n, d, "id") for n in names for d in ("float32", "complex64")]
         rest = [c for c in combos if c[2] != "id"]
-        combos = base + ctx.rng.sample(rest, 260)
+        combos = base + ctx.rng.sample(rest, 210)
+    base_fail = {}
+
+    def base_whats(name, dt):
+        """failures of the un-derived operator (form "id"): a derived form repeating them is attributed to the base"""
+        if (name, dt) not in base_fail:
+            try:
+                r0 = sweep_one(name, dt, "id")
+                base_fail[(name, dt)] = set(w for w, *_ in _O1_list(r0)) if r0 and r0["ctor"] is None else set()
+            except Exception:
+                base_fail[(name, dt)] = set()
+        return base_fail[(name, dt)]
     for name, dt, form in combos:
         try:
             rec = sweep_one(name, dt, form)
@@ -1098,22 +1140,35 @@ def run_sweep(ctx):
             continue
         if rec is None:
             continue
-        inp = {"class": name, "dtype": dt, "form": form}
-        ctx.count("sweep:" + form, inp)
-        t = ["sweep", name, dt, form]
+        inp = {"class": name, "dtype": dt, "form": form, "base": rec["base"], "result_cls": rec.get("cls"),
+               "declared": None if rec["ctor"] is not None else [rec["ish"], rec["osh"], rec["idt"], rec["odt"]]}
+        ctx.count("sweep:" + form, {"class": name, "dtype": dt, "form": form})
         unit = "sweep:" + form
         if rec["ctor"] is not None:
             ctx.violation(unit, "constructing a derived operator raises", inp, expected=sweep_expected(rec["base"], form),
                           observed=rec["ctor"], oracle="operator calculus")
             continue
-        ob = dict(rec)
-        _O1(ctx, unit, inp, ob)
+        inherited = set() if form == "id" else base_whats(name, dt)
+        for w, exp, got, orc in _O1_list(rec):
+            if w in inherited:
+                continue  # the un-derived operator already fails this way: reported at sweep:id
+            ctx.violation(unit, w, inp, expected=exp, observed=got, oracle=orc)
         want = sweep_expected(rec["base"], form)
         got = [rec["ish"], rec["osh"], rec["idt"], rec["odt"]]
         if want is not None and got != want:
             w = ("declared shapes of the derived operator differ from the operator calculus" if got[:2] != want[:2]
                  else "declared dtypes of the derived operator differ from the operator calculus")
             ctx.violation(unit, w, inp, expected=want, observed=got, oracle="spec e (ExprSpec.v)")
+
+
+def _O1_list(ob):
+    out = []
+
+    class Rec:
+        def violation(self, unit, what, inp, expected=None, observed=None, oracle=""):
+            out.append((what, expected, observed, oracle))
+    _O1(Rec(), "", None, ob)
+    return out
 
 
 def _O1(ctx, unit, inp, ob):
@@ -1262,11 +1317,14 @@ def run(ctx: Ctx):
     jax.config.update("jax_enable_x64", True)
     if os.environ.get("C12_DEBUG"):
         orig = ctx.violation
-        log = open("/verif/build/C12/viol.jsonl", "w")
+        from vf.common import _match
+        log = open(os.environ["C12_DEBUG"] if "/" in os.environ["C12_DEBUG"] else "/verif/build/C12/viol.jsonl", "w")
 
         def v(unit, what, inp, expected=None, observed=None, oracle=""):
+            rec = {"property": ctx.pid, "unit": unit, "what": what, "input": inp, "expected": expected, "observed": observed}
+            hits = [k["when"] for k in ctx.known if k["unit"] == unit and _match(k, rec)]
             r = orig(unit, what, inp, expected, observed, oracle)
-            log.write(json.dumps({"unit": unit, "what": what, "inp": inp, "exp": expected, "obs": observed, "new": r}, default=str) + "\n")
+            log.write(json.dumps({"unit": unit, "what": what, "inp": inp, "exp": expected, "obs": observed, "new": r, "hits": hits}, default=str) + "\n")
             log.flush()
             return r
         ctx.violation = v
@@ -1280,6 +1338,10 @@ def run(ctx: Ctx):
         "(modelled; exercised by every expression case)",
         "NumPy basic indexing (np_index_shape) and numpy.broadcast_shapes as specification, compared with NumPy itself on every case",
     ]
+    ctx.notes += ["not modelled: Python's reflected-operand dispatch (L +/- MatrixOperator goes to MatrixOperator.__radd__/__rsub__ "
+                  "first); such sums are not generated.  Crop is modelled on its declared dtype only (not used as the outer "
+                  "operator of generated compositions).  A / s is modelled by the same rule as s * A (Expr.v op_scal) and "
+                  "generated as its own unit derived:div (fixed boundary cases + random trees + sweep forms /2, /2j, /npc64)."]
     ctx.assumptions += ["values are abstracted: only shape and dtype of arrays are modelled",
                         "dtypes restricted to float32/float64/complex64/complex128 (x64 enabled)"]
     run_slices(ctx)
